@@ -27,6 +27,8 @@ PagesE == {<<InsertB("set", <<Assign("z", StrL("page"), 1), H("s")>>, 1)>>,
            <<InsertB("set", <<Assign("z", StrL("page"), 1)>>, 1), InsertB("use", <<H("u:"), P(Var("z"))>>, 1)>>,
            <<InsertB("use", <<P(Var("z")), Assign("w", IntL(1), 1)>>, 1), InsertB("inner", <<Assign("z", StrL("in"), 1), P(Var("w"))>>, 1)>>,
            <<InsertE("use", Var("z"), 1), InsertB("set", <<Assign("fresh", IntL(3), 1)>>, 1), InsertB("inner", <<P(Var("fresh"))>>, 1)>>,
+           \* white space at the start and at the end of an insert's body is part of the body
+           <<InsertB("set", <<H(" "), P(Var("t")), H("! ")>>, 1), InsertB("use", <<H("\n  "), If(<<Br(Var("show"), <<H("y")>>)>>, NoElse, 1), H("\n")>>, 1), InsertB("inner", <<H("\t"), P(Var("z"))>>, 1)>>,
            \* an insert body is evaluated once, where its reserve stands: what it adds to a name it reads is added once
            <<InsertB("set", <<Assign("z", Bin("+", Var("z"), StrL("+")), 1), H("s"), P(Var("z"))>>, 1), InsertB("use", <<Assign("z", Bin("+", Var("z"), StrL("u")), 1), P(Var("z"))>>, 1),
              InsertB("inner", <<Assign("z", Bin("+", Var("z"), StrL("i")), 1)>>, 1)>>,
